@@ -177,14 +177,18 @@ def namemode_links(case):
             c1.tasks[t].value
         have = {t: c1.tasks[t].has_data for t in ('t0', 't1', 't2')}
         named = ctx.flag('explicit_link_name')
-        c1.create_readable_filenames(name='pretty' if named else None)
-        c1.create_readable_filenames(name='pretty' if named else None, keep_existing=ctx.flag('keep_existing'))
-        del family.RUNLOG[:]
-        c2 = chain()
-        after = {t: c2.tasks[t].has_data for t in ('t0', 't1', 't2')}
-        for t in ('t0', 't1', 't2'):
-            c2.tasks[t].value
         info = {'mode': 'name', 'kinds': kinds[:3], 'explicit_link_name': named}
+        try:
+            c1.create_readable_filenames(name='pretty' if named else None)
+            c1.create_readable_filenames(name='pretty' if named else None, keep_existing=ctx.flag('keep_existing'))
+            del family.RUNLOG[:]
+            c2 = chain()
+            after = {t: c2.tasks[t].has_data for t in ('t0', 't1', 't2')}
+            for t in ('t0', 't1', 't2'):
+                c2.tasks[t].value
+        except Exception as e:       # stored results must stay readable
+            ctx.check_concrete(False, 'inspection-runs-nothing', dict(info, error=f'{type(e).__name__}: {e}'[:200]))
+            return
         ctx.check_concrete(after == have, 'inspection-runs-nothing', dict(info, has_data_before=have, has_data_after=after))
         ran = [r[0] for r in family.RUNLOG if have.get(r[0])]
         ctx.check_concrete(not ran, 'at-most-once', dict(info, ran_again=ran))
